@@ -807,8 +807,12 @@ def judge_final_inter(rex, rterms, rvars, final, vals):
         def exact(lo, hi):
             return ex_eval(F, {v: hi}) - ex_eval(F, {v: lo})
 
+        # a non-integral exponent p + 1 of F is itself rounded: relative effect |p + 1| * |ln x| * eps on the term
+        frac_exps = [abs(float(p)) for _, vs in F for p in vs.values() if not is_int(p)]
+
         def env(lo, hi):
-            return (ex_abs(F, {v: lo}) + ex_abs(F, {v: hi})) * (2 * nv + nt + 8) * EPS
+            sens = int(sum((1 + q) * max(lnabs(lo), lnabs(hi)) for q in frac_exps)) + (1 if frac_exps else 0)
+            return (ex_abs(F, {v: lo}) + ex_abs(F, {v: hi})) * (2 * nv + nt + 8 + sens) * EPS
         got = []
         for tok in vals:
             if not is_hexfloat(tok) or tok == 'nan':
